@@ -114,7 +114,27 @@ func trouble(format string, args ...interface{}) {
 
 // build prepares a scratch directory with an (instrumented) copy of /repo's
 // working tree and the harness binary built against it.
+// pruneStale removes scratch directories left behind by a driver process that no
+// longer exists (killed from outside).
+func pruneStale() {
+	ents, _ := os.ReadDir(tmpBase)
+	for _, e := range ents {
+		parts := strings.Split(e.Name(), "-")
+		if len(parts) < 2 {
+			continue
+		}
+		pid, err := strconv.Atoi(parts[1])
+		if err != nil || pid == os.Getpid() {
+			continue
+		}
+		if _, err := os.Stat(fmt.Sprintf("/proc/%d", pid)); os.IsNotExist(err) {
+			os.RemoveAll(filepath.Join(tmpBase, e.Name()))
+		}
+	}
+}
+
 func build(p *propCfg, eng engineKind) (scratch string) {
+	pruneStale()
 	scratch = filepath.Join(tmpBase, fmt.Sprintf("%s-%d-%d", p.id, os.Getpid(), eng))
 	os.RemoveAll(scratch)
 	scratchDirs = append(scratchDirs, scratch)
